@@ -55,6 +55,13 @@ Theorem c22_corrupted_rejected :
 Proof. exact corrupted_rejected. Qed.
 Print Assumptions c22_corrupted_rejected.
 
+(** at most one string decodes to a given address (no assumption on the hash, nor on the strings) *)
+Theorem c22_from_base58_unique :
+  forall (H : bytes -> bytes) (s1 s2 a : bytes),
+  from_base58 H s1 = inr a -> from_base58 H s2 = inr a -> s1 = s2.
+Proof. exact from_base58_unique. Qed.
+Print Assumptions c22_from_base58_unique.
+
 (** distinct addresses have distinct encodings *)
 Theorem c22_to_base58_injective :
   forall H : bytes -> bytes,
@@ -131,6 +138,12 @@ Theorem c22_hex_only_canonical :
   to_hex_string a = map hex_lower s /\ addr_ok a /\ length s = (2 * B58_ADDR_LEN)%nat.
 Proof. exact hex_only_canonical. Qed.
 Print Assumptions c22_hex_only_canonical.
+
+Theorem c22_hex_unique_up_to_case :
+  forall s1 s2 a, from_hex_string s1 = inr a -> from_hex_string s2 = inr a ->
+  map hex_lower s1 = map hex_lower s2.
+Proof. exact hex_unique_up_to_case. Qed.
+Print Assumptions c22_hex_unique_up_to_case.
 
 Theorem c22_hex_injective :
   forall a b, addr_ok a -> addr_ok b -> to_hex_string a = to_hex_string b -> a = b.
